@@ -45,6 +45,9 @@ type ReqPlan struct {
 	Ctl     CtlScript               `json:"ctl"`
 	Params  []ParamPlan             `json:"params,omitempty"`
 	Expect  Expect                  `json:"expect"`
+	// CancelledRequest: the client went away before the request was served (its context is done).
+	// Only C03's safety invariant is judged on such a request.
+	CancelledRequest bool `json:"cancelled_request,omitempty"`
 	// BaseRoute is the annotated route the request was derived from (equals Expect.Route except for strays)
 	BaseRoute int `json:"base_route"`
 }
@@ -98,6 +101,32 @@ func routeTags(rt projgen.Route) []string {
 	return tags
 }
 
+// tagsOf adds the overlap relation of a route to its structural tags: a literal route that
+// shadows a parameter route of the same verb, and whether that parameter route is declared
+// (hence, in a generator that keeps declaration order, registered) before or after it.
+func (pl *planner) tagsOf(ri int) []string {
+	rt := pl.routes[ri]
+	tags := routeTags(rt)
+	for oi, o := range pl.routes {
+		if oi == ri || o.M.Verb != rt.M.Verb {
+			continue
+		}
+		if projgen.MoreSpecific(rt.Segs, o.Segs) {
+			if pl.p.RegOrderKey(o) < pl.p.RegOrderKey(rt) {
+				tags = append(tags, "shadows-earlier-param")
+			} else {
+				tags = append(tags, "shadows-later-param")
+			}
+			break
+		}
+		if projgen.MoreSpecific(o.Segs, rt.Segs) {
+			tags = append(tags, "has-literal-sibling")
+			break
+		}
+	}
+	return tags
+}
+
 func typeClass(t projgen.TypeRef) string {
 	s := t.Kind + ":" + t.Prim
 	if t.Kind == "struct" {
@@ -113,12 +142,16 @@ func typeClass(t projgen.TypeRef) string {
 }
 
 // matchRoute is the reference router: verb + concrete (unescaped) path segments.
+// Among several matching templates the one with the most literal segments owns
+// the path (a request to exactly /items/featured addresses the literal route,
+// not /items/{id}); a tie is ambiguous (-2).
 func matchRoute(routes []projgen.Route, verb string, segs []string) int {
+	best, bestLit, tie := -1, -1, false
 	for i, rt := range routes {
 		if rt.M.Verb != verb || len(rt.Segs) != len(segs) {
 			continue
 		}
-		ok := true
+		ok, lit := true, 0
 		for j, ts := range rt.Segs {
 			if projgen.IsParamSeg(ts) {
 				if segs[j] == "" {
@@ -129,12 +162,22 @@ func matchRoute(routes []projgen.Route, verb string, segs []string) int {
 			if ts != segs[j] {
 				ok = false
 			}
+			lit++
 		}
-		if ok {
-			return i
+		if !ok {
+			continue
+		}
+		switch {
+		case lit > bestLit:
+			best, bestLit, tie = i, lit, false
+		case lit == bestLit:
+			tie = true
 		}
 	}
-	return -1
+	if tie {
+		return -2
+	}
+	return best
 }
 
 func (pl *planner) enumOf(t projgen.TypeRef) []string {
@@ -226,7 +269,7 @@ func (pl *planner) build(ri int, class string, modes map[string]string, adventur
 func (pl *planner) buildForced(ri int, class string, modes map[string]string, adventurous bool, forced map[string][]WireVal) *ReqPlan {
 	rt := pl.routes[ri]
 	m := rt.M
-	plan := &ReqPlan{ID: pl.nextID(), Class: class, Tags: routeTags(rt), Verb: m.Verb, AuthDefault: AuthDecision{Kind: "approve"}, BaseRoute: ri}
+	plan := &ReqPlan{ID: pl.nextID(), Class: class, Tags: pl.tagsOf(ri), Verb: m.Verb, AuthDefault: AuthDecision{Kind: "approve"}, BaseRoute: ri}
 	plan.Expect = Expect{Route: ri, OpID: pl.p.OpPrefix + rt.OpID, Outcome: "invoked"}
 	pathVals := map[string]string{}
 	q := url.Values{}
@@ -474,6 +517,7 @@ func (pl *planner) applyAuth(plan *ReqPlan) {
 
 func (pl *planner) refusal() AuthDecision {
 	d := AuthDecision{Kind: "refuse", Status: projgen.Pick(pl.r, []int{401, 403, 418, 500})}
+	d.CancelCtx = pl.r.Chance(1, 4)
 	if pl.r.Chance(1, 3) {
 		d.Payload = fmt.Sprintf(`{"reason":"denied-%d","code":%d}`, pl.r.Intn(1000), d.Status)
 	}
@@ -613,7 +657,9 @@ func (pl *planner) stray(ri int, kind string) *ReqPlan {
 	}
 	hit := matchRoute(pl.routes, verb, plain)
 	base.Params = nil
-	if hit >= 0 {
+	if hit == -2 {
+		base.Expect = Expect{Route: -1, Outcome: "unjudged", Policy: "ambiguous: several equally specific templates match"}
+	} else if hit >= 0 {
 		// it addresses another annotated route: only dispatch is judged (arguments were built for a different route)
 		base.Expect = Expect{Route: hit, OpID: pl.p.OpPrefix + pl.routes[hit].OpID, Outcome: "unjudged", Why: "stray request happens to match another annotated route"}
 	} else {
